@@ -43,6 +43,8 @@ struct Base {
     cfg: Cfg,
     ops: Vec<Op>,
     calls: Vec<u64>,
+    /// kind of every device call of every operation
+    kinds: Vec<Vec<u8>>,
     /// index (into ops) of the first target operation
     first_target: usize,
 }
@@ -50,6 +52,7 @@ struct Base {
 struct B {
     cx: Ctx,
     calls: Vec<u64>,
+    kinds: Vec<Vec<u8>>,
     first_target: Option<usize>,
 }
 
@@ -58,6 +61,7 @@ impl B {
         let r = self.cx.step(op);
         let c = self.cx.s.last_cnt;
         self.calls.push(c.reads + c.writes + c.seeks + c.flushes);
+        self.kinds.push(self.cx.s.dev.with(|d| d.kinds.clone()));
         r
     }
     fn targets(&mut self) {
@@ -90,6 +94,7 @@ fn build(nn: usize, vol: &VolCfg, rng: &mut SplitMix64) -> Base {
     let mut b = B {
         cx,
         calls: Vec::new(),
+        kinds: Vec::new(),
         first_target: None,
     };
     let cs = vol.cs as usize;
@@ -276,11 +281,24 @@ fn build(nn: usize, vol: &VolCfg, rng: &mut SplitMix64) -> Base {
         cfg,
         first_target: b.first_target.unwrap_or(ops.len()),
         calls: b.calls,
+        kinds: b.kinds,
         ops,
     }
 }
 
 /// The fault positions to enumerate for an operation with `calls` device calls.
+/// `positions`, plus EVERY call that is a write or a flush (only reads and seeks are thinned out).
+pub fn positions_kinds(kinds: &[u8], stride: u64, long: u64) -> Vec<u64> {
+    let mut ks = positions(kinds.len() as u64, stride, long);
+    for (i, k) in kinds.iter().enumerate() {
+        if (*k == b'w' || *k == b'f') && !ks.contains(&(i as u64 + 1)) {
+            ks.push(i as u64 + 1);
+        }
+    }
+    ks.sort_unstable();
+    ks
+}
+
 pub fn positions(calls: u64, stride: u64, long: u64) -> Vec<u64> {
     if calls <= long {
         return (1..=calls).filter(|k| (k - 1) % stride == 0 || *k == calls).collect();
@@ -295,7 +313,8 @@ pub fn positions(calls: u64, stride: u64, long: u64) -> Vec<u64> {
 fn emit_base(seed: u64, bits: u8, nn: usize, base: &Base, stride: u64, long: u64, sink: &mut Sink) -> u64 {
     let mut n = 0;
     for i in base.first_target..base.ops.len() {
-        for k in positions(base.calls[i], stride, long) {
+        debug_assert_eq!(base.calls[i] as usize, base.kinds[i].len());
+        for k in positions_kinds(&base.kinds[i], stride, long) {
             let id = format!("fault-{}-{}b{:02}-{}-{}", seed, bits, nn, i + 1, k);
             let mut h = History::new(id, "fault", seed, base.vol.dev_size, base.cfg.clone());
             for op in &base.ops[..i] {
